@@ -48,13 +48,13 @@ def fieldBuild (env : Env) (bf : Nat) (fp : Pair) : Except PErr (Name × PValue)
   | _ => .error bug
 
 def BuildsF (s₀ : List Char) (pr : Pair) (n : Name) (v : PValue) : Prop :=
-  ∀ bf, s₀.length - pr.start < bf → fieldBuild (envOf s₀) bf pr = .ok (n, normV v)
+  ∀ bf, s₀.length - pr.start < bf → fieldBuild (envOf s₀) bf pr = (expV v).map (fun x => (n, x))
 
 def GoodF (F : ValFam) (s₀ : List Char) (q : Nat) (t : List Char) (r : Res) : Prop :=
   match pField F.const (toks t) with
   | some ((n, v), ts') =>
     ∃ s' pr, r = .ok (q + (t.length - s'.length)) s' [pr] ∧ toks s' = ts' ∧ s'.length < t.length ∧
-      (∃ mid, t = mid ++ s') ∧ pr.start = q ∧ (finV v = true → BuildsF s₀ pr n v)
+      (∃ mid, t = mid ++ s') ∧ pr.start = q ∧ BuildsF s₀ pr n v
   | none => r = .fail
 
 def GoodFC (F : ValFam) (q : Nat) (t : List Char) (r : Res) : Prop := ∀ s₀, At s₀ q t → GoodF F s₀ q t r
@@ -103,7 +103,7 @@ theorem GoodF.fail {F s₀ q t r} (h : GoodF F s₀ q t r) (hp : pField F.const 
 
 theorem GoodF.ok {F s₀ q t r n v ts'} (h : GoodF F s₀ q t r) (hp : pField F.const (toks t) = some ((n, v), ts')) :
     ∃ s' pr, r = .ok (q + (t.length - s'.length)) s' [pr] ∧ toks s' = ts' ∧ s'.length < t.length ∧
-      (∃ mid, t = mid ++ s') ∧ pr.start = q ∧ (finV v = true → BuildsF s₀ pr n v) := by
+      (∃ mid, t = mid ++ s') ∧ pr.start = q ∧ BuildsF s₀ pr n v := by
   unfold GoodF at h; rw [hp] at h; exact h
 
 theorem GoodF.mk_fail {F s₀ q t} (hp : pField F.const (toks t) = none) : GoodF F s₀ q t .fail := by
@@ -190,8 +190,8 @@ theorem field_elem_gen (F : ValFam) (fn : String) (rr : Rule) (hFr : RuleOk fn r
           have : q + (t.length - s'.length) =
               skipPos (skipPos (q + n.length) r1 + 1) r2 + ((skipI r2).length - s'.length) := by omega
           rw [this]
-        · intro hnf bf hbf
-          have hb1 := hbv hnf bf (by
+        · intro bf hbf
+          have hb1 := hbv bf (by
             rw [hst]
             have := skipPos_ge (skipPos (q + n.length) r1 + 1) r2
             have := skipPos_ge (q + n.length) r1
